@@ -178,6 +178,25 @@ FAULTS = [
     ('bad_literal', 'x% = 99999%', 'SYNTAX', 's'),
     ('bad_literal_long', 'x% = 9999999999&', 'SYNTAX', 's'),
     ('dim_bounds', 'DIM w9%(5 TO 2)', 'INVALID_DIMENSIONS', 's'),
+    ('double_else', 'IF x% THEN\nELSE\nELSE\nEND IF', 'ANY', 'b'),
+    ('elseif_after_else', 'IF x% THEN\nELSE\nELSEIF x% THEN\nEND IF', 'ANY',
+     'b'),
+    ('array_as_for_limit', 'DIM q9(3) AS INTEGER\nFOR i9 = 1 TO q9\nNEXT',
+     'TYPE_MISMATCH', 'b'),
+    ('array_as_step', 'DIM q8(3) AS INTEGER\nFOR i8 = 1 TO 2 STEP q8\nNEXT',
+     'TYPE_MISMATCH', 'b'),
+    ('array_as_operand', 'DIM q7(3) AS INTEGER\nRANDOMIZE q7',
+     'TYPE_MISMATCH', 'b'),
+    ('array_in_sound', 'DIM q6(3) AS INTEGER\nSOUND q6, 1', 'TYPE_MISMATCH',
+     'b'),
+    ('array_in_input', 'DIM q5(3) AS INTEGER\nINPUT q5', 'TYPE_MISMATCH',
+     'b'),
+    ('array_in_expr', 'DIM q4(3) AS INTEGER\nx% = q4 + 1', 'TYPE_MISMATCH',
+     'b'),
+    ('array_as_cond', 'DIM q3(3) AS INTEGER\nDO UNTIL q3\nLOOP',
+     'TYPE_MISMATCH', 'b'),
+    ('print_array', 'DIM q2(3) AS INTEGER\nPRINT q2', 'TYPE_MISMATCH', 'b'),
+    ('stray_case_else', 'CASE ELSE', 'ANY', 'b'),
     ('unclosed_for', 'FOR j9% = 1 TO 2', 'ANY', 'b'),
     ('stray_next', 'NEXT', 'ANY', 'b'),
     ('stray_end_if', 'END IF', 'ANY', 'b'),
